@@ -97,3 +97,13 @@ Definition s_artifact_of (cm : cmodule) (m : module) (elem_shift : nat)
               sa_code := map (fun lf => s_func_of (fst lf) (snd lf))
                              (combine (map (fun fd => snd (fst fd)) (cm_funcs cm)) code) |}
   end.
+
+(** side conditions under which the stored record and the machine artifact are the same object:
+    one name per import, one compiled function per function, non-negative register counts,
+    data offsets below 2^31 (they are written as signed [i32]) and data bytes that are bytes *)
+Definition view_okb (cm : cmodule) (m : module) (names : list (list N * list N))
+           (code : list compiled_function) : bool :=
+  Nat.eqb (length names) (length (cm_imports cm))
+  && Nat.eqb (length code) (length (cm_funcs cm))
+  && forallb (fun f => 0 <=? cf_num_registers f) code
+  && forallb (fun d => (fst d <? 2147483648)%N && forallb (fun b => 0 <=? b) (snd d)) (m_data m).
